@@ -71,12 +71,13 @@ type procResult struct {
 	Known       []Violation        `json:"known"`
 	Determinism map[string]string  `json:"determinism"` // run key -> log hash (for the self-test)
 	Extra       map[string]float64 `json:"extra"`
+	Incidental  map[string]int     `json:"incidental"`
 	WallS       float64            `json:"wall_s"`
 	Config      SimConfig          `json:"config"`
 }
 
 var proc = &procResult{Probes: map[string]int{}, Distinct: map[string]bool{}, Scheds: map[string]bool{},
-	States: map[string]bool{}, Policies: map[string]int{}, Determinism: map[string]string{}, Extra: map[string]float64{}}
+	States: map[string]bool{}, Policies: map[string]int{}, Determinism: map[string]string{}, Extra: map[string]float64{}, Incidental: map[string]int{}}
 
 var procStart = time.Now()
 
@@ -255,6 +256,15 @@ func reportRun(rt *rapid.T, prop string, viol []Violation, st RunStats, sample a
 	kf := loadKnownFindings()
 	var fresh []Violation
 	for _, v := range viol {
+		if v.Property == "HARNESS" {
+			proc.write()
+			rt.Fatalf("HARNESS-FAILURE %s", v.Text)
+		}
+		if v.Property != prop && !alsoReports(prop, v.Property) {
+			// found while checking another property: counted, reported by that property's own check
+			proc.Incidental[v.Property+" "+v.Key]++
+			continue
+		}
 		if kf[v.Property+" "+v.Key] {
 			proc.Known = append(proc.Known, v)
 		} else {
@@ -329,4 +339,9 @@ func stableDump(d string) string {
 		out = append(out, l)
 	}
 	return strings.Join(out, "\n")
+}
+
+// alsoReports: properties whose checks share one oracle family.
+func alsoReports(check, found string) bool {
+	return false
 }
